@@ -316,6 +316,18 @@ func (r *drv) soundAfterUse(from *drv) (ok bool) {
 	mark := mutateMark + 7
 	switch {
 	case isListKind(k):
+		// in-place writes first: growing the result may reallocate its storage and hide a shared backing array
+		if size > 0 && from != nil && r.set != nil {
+			fp := from.fingerprint()
+			r.set(0, mark)
+			r.set(size-1, mark+1)
+			shared := from.fingerprint() != fp
+			r.set(0, before[0])
+			r.set(size-1, before[size-1])
+			if shared {
+				return false
+			}
+		}
 		r.add(mark)
 		vs := r.c.Values()
 		if len(vs) != size+1 || vs[size] != mark || !intsEqual(vs[:size], before) || r.c.Size() != size+1 {
